@@ -320,6 +320,8 @@ func (e *Expr) Eval(env Env) V {
 type Rel struct {
 	Names []string
 	Rows  [][]V
+	// Ambiguous: the rows depend on an unspecified choice made below (LIMIT that cuts through a tie group / has no ORDER BY)
+	Ambiguous bool
 }
 
 func (r Rel) Clone() Rel {
@@ -494,6 +496,45 @@ type Result struct {
 	Limit   int
 	Pre     [][]V
 	PreKeys [][]V
+	// Ambiguous: some nested query's LIMIT admits several answers, so this result is only one of the valid ones
+	Ambiguous bool
+}
+
+// cutAmbiguous: this result's own LIMIT admits more than one answer (as a multiset of rows).
+func (r Result) cutAmbiguous() bool {
+	if r.Limit < 0 || len(r.Pre) <= r.Limit {
+		return false
+	}
+	if r.Limit == 0 {
+		return false
+	}
+	if !r.Sorted {
+		// any n rows: ambiguous unless all rows are identical
+		for _, row := range r.Pre[1:] {
+			if RowKey(row) != RowKey(r.Pre[0]) {
+				return true
+			}
+		}
+		return false
+	}
+	// tie group containing the cut
+	n := r.Limit
+	s, e := n-1, n
+	for s > 0 && keysEq(r.PreKeys[s-1], r.PreKeys[n-1]) {
+		s--
+	}
+	for e < len(r.Pre) && keysEq(r.PreKeys[e], r.PreKeys[n-1]) {
+		e++
+	}
+	if e == n {
+		return false
+	}
+	for _, row := range r.Pre[s+1 : e] {
+		if RowKey(row) != RowKey(r.Pre[s]) {
+			return true
+		}
+	}
+	return false
 }
 
 func evalFrom(f *From, ctes map[string]Rel) Rel {
@@ -513,11 +554,11 @@ func evalFrom(f *From, ctes map[string]Rel) Rel {
 		return requalify(r, alias)
 	case f.Sub != nil:
 		res := evalQuery(f.Sub, ctes)
-		return requalify(Rel{Names: res.Names, Rows: res.Rows}, f.Alias)
+		return requalify(Rel{Names: res.Names, Rows: res.Rows, Ambiguous: res.Ambiguous || res.cutAmbiguous()}, f.Alias)
 	}
 	l, r := evalFrom(f.Join.L, ctes), evalFrom(f.Join.R, ctes)
 	names := append(append([]string{}, l.Names...), r.Names...)
-	out := Rel{Names: names}
+	out := Rel{Names: names, Ambiguous: l.Ambiguous || r.Ambiguous}
 	lm := make([]bool, len(l.Rows))
 	rm := make([]bool, len(r.Rows))
 	for i, lr := range l.Rows {
@@ -559,7 +600,7 @@ func requalify(r Rel, alias string) Rel {
 	for i, n := range r.Names {
 		names[i] = alias + "." + bare(n)
 	}
-	return Rel{Names: names, Rows: r.Rows}
+	return Rel{Names: names, Rows: r.Rows, Ambiguous: r.Ambiguous}
 }
 
 func sortRows(rows [][]V, keys [][]V, desc []bool) ([][]V, [][]V) {
@@ -607,7 +648,7 @@ func evalQuery(q *Query, outer map[string]Rel) Result {
 	}
 	for _, c := range q.With {
 		r := evalQuery(c.Q, ctes)
-		ctes[c.Name] = Rel{Names: r.Names, Rows: r.Rows}
+		ctes[c.Name] = Rel{Names: r.Names, Rows: r.Rows, Ambiguous: r.Ambiguous || r.cutAmbiguous()}
 	}
 	in := evalFrom(q.From, ctes)
 	var rows [][]V
@@ -669,7 +710,7 @@ func evalQuery(q *Query, outer map[string]Rel) Result {
 			srcRows = ds
 		}
 	}
-	res := Result{Names: outNames, Rows: out, Limit: -1}
+	res := Result{Names: outNames, Rows: out, Limit: -1, Ambiguous: in.Ambiguous}
 	if len(q.OrderBy) > 0 {
 		keys := make([][]V, len(out))
 		desc := make([]bool, len(q.OrderBy))
